@@ -84,6 +84,17 @@ func (e *Engine) invoke(g *Goroutine, cl *Closure, args []Value, callSite ssa.Va
 			name = n
 		}
 	}
+	if strings.HasPrefix(name, "redirect:") {
+		tf := e.entryPkg.Func(name[9:])
+		if tf == nil {
+			e.abort("unsupported", "redirect target not found: "+name[9:])
+		}
+		e.stub(name + " <- " + cl.Fn.String())
+		nf := e.pushFrame(g, &Closure{Fn: tf}, args, callSite)
+		nf.isDefer = isDefer
+		nf.panicDefer = panicDefer
+		return true
+	}
 	if name != "" {
 		if cl.BoundRecv != nil {
 			args = append([]Value{cl.BoundRecv}, args...)
@@ -296,7 +307,9 @@ func (e *Engine) intrinsicFor(fn *ssa.Function) (string, bool) {
 		name = o.String()
 	}
 	res := ""
-	if fn.Synthetic == "package initializer" {
+	if tgt, ok := e.cfg.Redirect[name]; ok {
+		res = "redirect:" + tgt
+	} else if fn.Synthetic == "package initializer" {
 		res = "noop:pkginit"
 	} else if _, ok := intrinsics[name]; ok {
 		res = name
